@@ -14,7 +14,25 @@ use splgen::reflex;
 use splgen::src::{fnv, Src};
 use splgen::text::{self, Edit};
 
+/// deeply nested but bounded constructs (depth 20-60; the release server handles about 150)
+fn nested_doc(s: &mut Src) -> String {
+    let d = 20 + s.below(41);
+    match s.below(5) {
+        0 => format!("proc main() {{ var x: int; x := {}1{}; }}\n", "(".repeat(d), ")".repeat(d)),
+        1 => format!("proc main() {{ {} ; {} }}\n", "{".repeat(d), "}".repeat(d)),
+        2 => format!("proc main() {{ var a: array [2] of int; a[0] := {}0{}; }}\n", "a[".repeat(d), "]".repeat(d)),
+        3 => format!("proc main() {{ var x: int; {} x := 1; }}\n", "if (x = 0) ".repeat(d)),
+        _ => format!("proc main() {{ var x: int; x := {}1; }}\n", "- ".repeat(d)),
+    }
+}
+
 pub fn gen_doc(s: &mut Src) -> (String, String) {
+    if s.chance(1, 12) {
+        let t = nested_doc(s);
+        // sometimes broken: the closing half is missing
+        let t = if s.chance(1, 3) { t[..t.len() / 2].to_string() } else { t };
+        return ("nested".to_string(), t);
+    }
     let deep = s.chance(1, 8);
     let cfg = if deep { GenCfg { max_depth: 22, budget: 300, max_decls: 3, ..GenCfg::default() } } else { GenCfg { max_decls: 5, budget: 120, ..GenCfg::default() } };
     let (st, t) = text::gen_document(s, &cfg);
@@ -357,7 +375,7 @@ pub fn run(ctx: &Ctx) -> i32 {
     finish(
         ctx,
         parts,
-        "documents of all strata (valid programs incl. a deep-nesting stratum up to depth 22, damaged programs, token soup with unterminated literals, arbitrary Unicode, CRLF, unterminated comments / ticks, empty) with optional edit histories; in process: AnalyzedSource::new / update / errors and the document broker must not panic, then all 13 handlers at 3-6 positions (token start / inside / last character / just past / behind, anywhere, origin, column past the end of a line, line past the end of the text) must neither panic nor return an error; against the real binary: sessions of 20-60 messages (didChange and the 13 requests at such positions): one response with the request's id and a result per request, in order, strict frames, alive until exit, status 0; non-trivial = the document has diagnostics / was edited or a position lies outside the text; evaluations = handler calls resp. requests",
+        "documents of all strata (valid programs incl. a deep-nesting stratum up to depth 22 and explicitly nested parentheses / blocks / array accesses / ifs / negations of depth 20-60, damaged programs, token soup with unterminated literals, arbitrary Unicode, CRLF, unterminated comments / ticks, empty) with optional edit histories; in process: AnalyzedSource::new / update / errors and the document broker must not panic, then all 13 handlers at 3-6 positions (token start / inside / last character / just past / behind, anywhere, origin, column past the end of a line, line past the end of the text) must neither panic nor return an error; against the real binary: sessions of 20-60 messages (didChange and the 13 requests at such positions): one response with the request's id and a result per request, in order, strict frames, alive until exit, status 0; non-trivial = the document has diagnostics / was edited or a position lies outside the text; evaluations = handler calls resp. requests",
         &[
             "nesting stays below the bound at which the 2 MB worker stack overflows (about 100-200 levels in release): outside the property's quantifier",
             "request params are well-formed and ids are integers",
